@@ -97,6 +97,14 @@ func expiryAtom(info *types.Info, body ast.Node, cs expiryCase) core.AtomVal {
 			}
 			return false, false
 		}
+		// a call of a one-line boolean helper of the same package: evaluate its body with the
+		// arguments substituted (`expiredAt(exp, now)` for `exp != 0 && exp < now`)
+		if call, isCall := e.(*ast.CallExpr); isCall {
+			if inl := inlineBoolHelper(info, call); inl != nil {
+				return core.EvalBool(info, inl, atom)
+			}
+			return false, false
+		}
 		be, ok := e.(*ast.BinaryExpr)
 		if !ok {
 			return false, false
@@ -140,6 +148,7 @@ func expiryAtom(info *types.Info, body ast.Node, cs expiryCase) core.AtomVal {
 
 func c30(c *core.Ctx) {
 	p := c.P
+	curProg = p
 	c.Explain = "Static necessary conditions for consistent expiry semantics: each 'is expired' decision (treasure.IsExpired and the three claim sites of the expiry index), evaluated exhaustively over the abstract order cases of (expiry vs 0, expiry vs now), is true exactly for a non-zero expiry strictly before now (pre-epoch included); SetExpirationTime maps the zero time to 0; every insertion into the expiry index is guarded by expiry != 0; every 'has an expiry' test in core and gateway compares with != 0 / == 0 (never > 0); expiry travels in nanoseconds to time.Unix(0, x)."
 	c.NotCovered = []string{"value-level agreement on concrete histories", "clock skew between calls of time.Now", "filter semantics on the expiry field"}
 
@@ -357,4 +366,52 @@ func unitRule(c *core.Ctx, r *core.Rule, isNanoSource func(*types.Info, ast.Node
 			r.Check(a1 && !a0 && isConst(info, call.Args[0], 0), construct, call.Pos(), "nanoseconds", "a nanosecond "+what+" value is passed to time.Unix as seconds: the resulting time is off by a factor of 10^9")
 		})
 	}
+}
+
+// curProg is the program of the running check (set by the rule functions that inline helpers).
+var curProg *core.Prog
+
+// inlineBoolHelper returns the body expression of a same-package function that consists of a single
+// `return <bool expr>`, with its parameters replaced by the call's arguments; nil when the callee is
+// not of that shape. Only identifiers that name parameters are replaced; every other node is shared
+// with the callee's syntax tree, so type information stays available (same package, same types.Info).
+func inlineBoolHelper(info *types.Info, call *ast.CallExpr) ast.Expr {
+	if curProg == nil {
+		return nil
+	}
+	fo := core.Callee(info, call)
+	t := curProg.ByObj[fo]
+	if t == nil || t.Decl.Body == nil || t.Info() != info || len(t.Decl.Body.List) != 1 {
+		return nil
+	}
+	ret, ok := t.Decl.Body.List[0].(*ast.ReturnStmt)
+	if !ok || len(ret.Results) != 1 {
+		return nil
+	}
+	sig := fo.Type().(*types.Signature)
+	if sig.Results().Len() != 1 || sig.Params().Len() != len(call.Args) || sig.Variadic() {
+		return nil
+	}
+	sub := map[types.Object]ast.Expr{}
+	for i := 0; i < sig.Params().Len(); i++ {
+		sub[sig.Params().At(i)] = call.Args[i]
+	}
+	var rw func(e ast.Expr) ast.Expr
+	rw = func(e ast.Expr) ast.Expr {
+		switch v := e.(type) {
+		case *ast.Ident:
+			if a, ok := sub[info.Uses[v]]; ok {
+				return a
+			}
+			return v
+		case *ast.ParenExpr:
+			return &ast.ParenExpr{Lparen: v.Lparen, X: rw(v.X), Rparen: v.Rparen}
+		case *ast.UnaryExpr:
+			return &ast.UnaryExpr{OpPos: v.OpPos, Op: v.Op, X: rw(v.X)}
+		case *ast.BinaryExpr:
+			return &ast.BinaryExpr{X: rw(v.X), OpPos: v.OpPos, Op: v.Op, Y: rw(v.Y)}
+		}
+		return e
+	}
+	return rw(ret.Results[0])
 }
